@@ -16,5 +16,8 @@ func controlsC07() []Control {
 		{Name: "continue handler pauses unconditionally", Expect: "R1", Mutate: replaceIn("(*tableEngine).continueGame", "if te.table.ShouldPause() {", "if true {", 0)},
 		{Name: "opened status written on the live table", Expect: "R1", Mutate: replaceIn("(*tableEngine).openGame", "cloneTable.State.Status = TableStateStatus_TableGameOpened", "oldTable.State.Status = TableStateStatus_TableGameOpened", 0)},
 		{Name: "blinds-set predicate is a disjunction", Expect: "R6", Mutate: replaceIn("(TableBlindState).IsSet", "bs.SB != UnsetValue && bs.BB != UnsetValue", "(bs.SB != UnsetValue || bs.BB != UnsetValue)", 0)},
+		{Name: "first open result installed when it failed", Expect: "R7", Mutate: replaceIn("(*tableEngine).tableGameOpen", "retry := 10\n\tif err != nil {", "retry := 10\n\tif err == nil {", 0)},
+		{Name: "retry loop treats a failed re-open as success", Expect: "R7", Mutate: replaceIn("(*tableEngine).tableGameOpen", "newTable, err = te.openGame(te.table)\n\t\t\t\tif err != nil {", "newTable, err = te.openGame(te.table)\n\t\t\t\tif err == nil {", 0)},
+		{Name: "successful re-open forgotten", Expect: "R7", Mutate: replaceIn("(*tableEngine).tableGameOpen", "reopened = true\n", "", 0)},
 	}
 }
